@@ -24,14 +24,16 @@ applies that announcement —
   position at the end of its bucket (`replica_creates_new`);
 * a completed / halted record removes the run (`replica_removes_finished`).
 
-The whole-table statement `SyncBisim` (every live instance's table equals the
-single engine's after every input, for every split and crash set) is the
-composition of these over the notification lists; it is stated below and its
-proof is not complete — the theorems are therefore the `_partial` set.  The
-composition is exercised on every run by the correspondence harness (real
-clusters against one real engine, all splits and crash points of short
-streams).  `FeedbackInert` is an explicit hypothesis of the full statement:
-without it the property is false of the code (finding F2, recorded open).
+The whole-table statements come after these record-level lemmas (which keep their historical `_partial`
+names): `replica_mirrors_runs` (one step: originator and replica compute the SAME fold of the `updated` records),
+`split_stream_mirror` / `split_stream_mirror_ids` / `split_stream_mirror_n` (every split of every stream over any
+number of instances keeps all tables identical key by key, history content included; identifier hygiene derived
+from collision-free generators), and `single_engine_step` / `single_engine_shadows` (the cluster against ONE
+engine fed the whole stream: same tables key by key and, at every step, the same announced records per key).
+`SyncBisim` below is the older, weaker (identifier / index / size only) formulation, kept for reference.
+The composition is also exercised on every run by the correspondence harness (real clusters against one real
+engine, all splits and crash points of short streams).  `FeedbackInert` is an explicit hypothesis of the full
+property: without it the property is false of the code (finding F2, recorded open).
 -/
 namespace Bobo.Decider
 open Bobo.Run Bobo.Lattice
@@ -44,8 +46,9 @@ def FeedbackInert (c : Cfg ε) (isSimple : ε → Bool) : Prop :=
   ∀ P ∈ c.phenomena, ∀ p ∈ P.patterns, ∀ (r : Run ε) (e : ε), isSimple e = false →
     (process p r e) = (.ok false, r) ∧ ∀ b ∈ p.blocks.head?, startMatch b.preds e = false
 
-/-- the full statement (not yet proved as a whole): after the same input stream, split arbitrarily,
-with full delivery between inputs, every replica's buckets equal the single decider's. -/
+/-- the older bucket-level formulation (superseded by `split_stream_mirror_n` / `single_engine_shadows`, which are
+proved): after the same input stream, split arbitrarily, with full delivery between inputs, every replica's buckets
+equal the single decider's. -/
 def SyncBisim (c : Cfg ε) (single : DState ε) (replicas : List (DState ε)) : Prop :=
   ∀ r ∈ replicas, ∀ ph pa, (r.table.runsFrom ph pa).map (fun x => (x.run.id, x.run.idx, x.run.hist.size))
     = (single.table.runsFrom ph pa).map (fun x => (x.run.id, x.run.idx, x.run.hist.size))
